@@ -59,7 +59,8 @@ impl CsrSegment {
         dst: InternalNodeId,
         rel: Option<RelTypeId>,
     ) -> Box<dyn Iterator<Item = EdgeKey> + '_> {
-        if dst < self.min_dst || dst > self.max_dst {
+        // An edge-free segment has `min_dst == max_dst == 0` and no reverse index at all.
+        if self.in_offsets.is_empty() || dst < self.min_dst || dst > self.max_dst {
             return Box::new(std::iter::empty());
         }
 
